@@ -101,6 +101,18 @@ class Session:
             return self._line(op["text"])
         if kind == "burst":
             return self._burst(op["texts"])
+        if kind == "nline":
+            # traffic on ANOTHER gateway object of the same process (same version and flavour): this gateway
+            # must not notice - nothing emitted, no callback, state unchanged
+            if getattr(self, "neighbour", None) is None:
+                self.neighbour = drive.Driver(self.version, self.driver.flavour if self.driver.flavour in ("sync", "async") else "sync")
+            mark, cbs = len(self.driver.sent_log()), len(self.driver.cb_log)
+            self.neighbour.line(op["text"])
+            if len(self.driver.sent_log()) != mark or len(self.driver.cb_log) != cbs:
+                raise Clause({"state", "reply", "callback", "sleep", "wake", "crash"}, "other_gateway_traffic_has_effect", f"line {op['text']!r} handled by another gateway object made this one emit {self.driver.sent_log()[mark:]} / fire {len(self.driver.cb_log) - cbs} callbacks")
+            self._check_state(f"after line {op['text']!r} on another gateway")
+            self.labels.add("neighbour")
+            return None
         if kind == "set":
             return self._set(op)
         if kind == "fw":
@@ -249,6 +261,11 @@ class Session:
         kw = {}
         if "ack" in op:
             kw["ack"] = op["ack"]
+        mtype = T.SET
+        if "msg_type" in op:
+            # the documented msg_type keyword: the command is a req (or an explicit set)
+            mtype = int(op["msg_type"])
+            kw["msg_type"] = self.driver.gw.const.MessageType(mtype) if op.get("mt_kind") == "enum" else mtype
         sleeping_before = {nid for nid, n in model.nodes.items() if n.sleeping}
         target = model.set_value_target(op["n"], op["c"])
         before = self.driver.snapshot()
@@ -260,15 +277,21 @@ class Session:
             after = self.driver.snapshot()
             if after != before or step.sent:
                 raise Clause({"reply", "state", "wake"}, "refused_call_has_effect", f"set_child_value raised {step.call_exc!r} but changed {diff_keys(before, after)} / sent {step.sent}")
-            if model.must_accept_set_value(op["n"], op["c"], vt, op["value"], op.get("ack", 0)):
+            if mtype == T.SET and model.must_accept_set_value(op["n"], op["c"], vt, op["value"], op.get("ack", 0)):
                 raise Clause({"wake" if target == "sleeping" else "reply"}, "valid_call_refused", f"set_child_value({op['n']},{op['c']},{vt!r},{op['value']!r}) on a {target} node raised {type(step.call_exc).__name__}: {step.call_exc}")
-        exp = model.set_value(op["n"], op["c"], vt, op["value"], op.get("ack", 0), raised)
+        if mtype != T.SET and target == "sleeping":
+            # whatever the library makes of a req for a sleeping node, nothing may leave now; what the next
+            # wake-up carries for it is not pinned by any statement, so the pinned part of the history ends here
+            self._check_emissions(step, M.Expect(), sleeping_before, inbound=None)
+            self.labels.add("set-msgtype-sleeping")
+            raise Clause({"unpinned"}, "history_leaves_pinned_domain", "controller req for a sleeping node")
+        exp = model.set_value(op["n"], op["c"], vt, op["value"], op.get("ack", 0), raised, mtype)
         self._check_emissions(step, exp, sleeping_before, inbound=None)
         if step.callbacks:
             raise Clause({"callback"}, "callback_on_controller_call", f"set_child_value fired the event callback {step.callbacks}")
         self._check_state("after set_child_value")
         self.labels.add("set-" + target)
-        if target == "sleeping" and not raised:
+        if target == "sleeping" and not raised and mtype == T.SET:
             node = model.nodes[op["n"]]
             try:
                 frame = (op["n"], op["c"], T.SET, 0, int(vt), str(op["value"]))
@@ -286,7 +309,10 @@ class Session:
             return self._fw_bad_path(op)
         image = image_bytes(op["image"]) if op.get("image") else None
         sleeping_before = {nid for nid, n in self.model.nodes.items() if n.sleeping}
-        step = self.driver.update_fw(op["nids"], op["type"], op["ver"], image=image, via_path=bool(op.get("via_path")))
+        # the update call converts type and version with int(): numeric strings and integral floats are
+        # legitimate spellings of the same firmware id
+        conv = {"str": str, "float": float}.get(op.get("tv_kind"), int)
+        step = self.driver.update_fw(op["nids"], conv(op["type"]), conv(op["ver"]), image=image, via_path=bool(op.get("via_path")))
         if step.exc is not None:
             raise Clause({"crash", "ota"}, f"crash.{type(step.exc).__name__}", f"pump raised after update_fw: {step.exc!r}")
         if step.call_exc is None:
